@@ -51,9 +51,9 @@ def case(draw, tier):
                 w = {"k": "i", "i": i, "op": {"k": "set", "v": draw(st.integers(-3, 30))}}
                 ops.append({"k": "D", "ops": [["at", draw(st.integers(0, 2)), w]]} if nested else w)
             script.append([t, ops])
-        return {"schema": schema, "script": script, "start": start, "end": start + horizon}
+        return {"schema": schema, "script": script, "start": start, "end": start + horizon, "raw_copy": draw(st.integers(0, 2)) == 0}
     script = draw(tm.history(schema, start, horizon, opts, max_cycles=12 if big else 7))
-    return {"schema": schema, "script": script, "start": start, "end": start + horizon}
+    return {"schema": schema, "script": script, "start": start, "end": start + horizon, "raw_copy": draw(st.integers(0, 2)) == 0}
 
 
 def strategy(tier):
@@ -154,7 +154,13 @@ def check(case, ctx) -> Result:
         {"id": "rec", "op": "node", "ins": ["w"], "deep": True, "valid": []},
         {"id": "R", "op": "op", "name": "record", "args": [{"ts": "w"}, {"sc": "buf2", "t": "str"}], "has_out": False},
     ])
-    resp = ctx.request({"op": "rr", "prog1": prog1, "prog2": prog2, "map": {"buf": "buf"}})
+    # the recording reaches the replay either as a list of deltas (get_recorded_deltas -> set_replay_deltas) or as a copy of the
+    # whole buffer Value put into the second builder's global state
+    raw = bool(case.get("raw_copy"))
+    if raw:
+        prog2["raw_seed"] = {"buf": "buf"}
+        res.labels.append("buffer_copied_as_a_value")
+    resp = ctx.request({"op": "rr", "prog1": prog1, "prog2": prog2, "map": {} if raw else {"buf": "buf"}})
     if resp.get("crash"):
         res.violations.append(Viol("engine_crash", f"worker died: {resp.get('signal')} {resp.get('stderr', '')[-500:]}"))
         return res
